@@ -360,3 +360,154 @@ func TestRaceDPT(t *testing.T) {
 		}
 	}
 }
+
+// TestRaceRouter: concurrent Sends (with and without a post-send pause), lost and busy
+// indications, inbound traffic with a slow or absent reader, and Close - all at once, on a real
+// multicast group on the loopback interface (skipped where the host cannot do that).
+func TestRaceRouter(t *testing.T) {
+	rng := rand.New(rand.NewPCG(seed(), 0x14))
+	for round := 0; round < rounds(40); round++ {
+		group := fmt.Sprintf("239.77.%d.%d:%d", 1+rng.IntN(200), 1+rng.IntN(200), 20000+rng.IntN(20000))
+		cfg := knx.RouterConfig{RetainCount: uint([]int{0, 1, 3, 32}[rng.IntN(4)]), MulticastLoopbackEnabled: true}
+		if rng.IntN(2) == 0 {
+			cfg.PostSendPauseDuration = time.Duration(1+rng.IntN(3)) * time.Millisecond
+		}
+		rt, err := knx.NewRouter(group, cfg)
+		if err != nil {
+			t.Skipf("no multicast on this host: %v", err)
+		}
+		gaddr, _ := net.ResolveUDPAddr("udp4", group)
+		peer, err := net.DialUDP("udp4", nil, gaddr)
+		if err != nil {
+			rt.Close()
+			t.Skipf("cannot reach the group: %v", err)
+		}
+		var wg sync.WaitGroup
+		stop := make(chan struct{})
+		for s := 0; s < 1+rng.IntN(4); s++ {
+			wg.Add(1)
+			go func(s int) {
+				defer wg.Done()
+				for i := 0; i < 30; i++ {
+					select {
+					case <-stop:
+						return
+					default:
+					}
+					rt.Send(&cemi.LDataInd{LData: cemi.LData{Control1: 0xbc, Control2: 0xe0, Destination: uint16(s<<8 | i), Data: &cemi.AppData{Command: 2, Data: []byte{1}}}})
+				}
+			}(s)
+		}
+		if rng.IntN(3) != 0 {
+			slow := rng.IntN(2) == 0
+			wg.Add(1)
+			go func() {
+				defer wg.Done()
+				k := 0
+				for range rt.Inbound() {
+					if k++; slow && k%4 == 0 {
+						time.Sleep(200 * time.Microsecond)
+					}
+				}
+			}()
+		}
+		wg.Add(1)
+		go func() { // the other routers on the group
+			defer wg.Done()
+			for i := 0; i < 40; i++ {
+				select {
+				case <-stop:
+					return
+				default:
+				}
+				switch i % 5 {
+				case 1:
+					peer.Write(frame(0x0531, []byte{4, 0, 0, byte(1 + i%7)})) // routing lost
+				case 3:
+					peer.Write(frame(0x0532, []byte{6, 0, 0, byte(i % 20), 0, 0})) // routing busy
+				default:
+					c := []byte{0x29, 0, 0xbc, 0xe0, 0x11, 5, 0x20, byte(i), 3, 0, 0x80, 0x20, byte(i)}
+					peer.Write(frame(0x0530, c))
+				}
+				time.Sleep(300 * time.Microsecond)
+			}
+		}()
+		time.Sleep(time.Duration(3+rng.IntN(25)) * time.Millisecond)
+		rt.Close()
+		close(stop)
+		wg.Wait()
+		peer.Close()
+		time.Sleep(60 * time.Millisecond) // busy timers and unlock goroutines run out
+	}
+}
+
+// TestRaceDescribe: several description requests at the same time, each to its own server; every
+// caller must get its own server's answer (sockets of one process share nothing).
+func TestRaceDescribe(t *testing.T) {
+	rng := rand.New(rand.NewPCG(seed(), 0x20))
+	const n = 8
+	type server struct {
+		conn *net.UDPConn
+		name string
+	}
+	var servers []server
+	for i := 0; i < n; i++ {
+		c, err := net.ListenUDP("udp4", &net.UDPAddr{IP: net.IPv4(127, 0, 0, 1)})
+		if err != nil {
+			t.Skipf("no loopback UDP: %v", err)
+		}
+		sv := server{c, fmt.Sprintf("server-%d", i)}
+		servers = append(servers, sv)
+		go func() {
+			buf := make([]byte, 2048)
+			for {
+				k, from, err := sv.conn.ReadFromUDP(buf)
+				if err != nil {
+					return
+				}
+				if k < 8 || buf[2] != 0x02 || buf[3] != 0x03 {
+					continue
+				}
+				name := make([]byte, 30)
+				copy(name, sv.name)
+				dev := append([]byte{54, 1, 0x02, 0, 0x11, 0x01, 0, 0, 1, 2, 3, 4, 5, byte(len(sv.name)), 224, 0, 23, 12, 1, 2, 3, 4, 5, 6}, name...)
+				body := append(dev, 4, 2, 2, 1)
+				// a longer frame of another kind first, so that a shared buffer has something to mix in
+				sv.conn.WriteToUDP(frame(0x0530, append([]byte{0x29, 0, 0xbc, 0xe0, 0x11, 5, 0x20, 1, 60, 0, 0x80}, make([]byte, 60)...)), from)
+				sv.conn.WriteToUDP(frame(0x0204, body), from)
+			}
+		}()
+	}
+	defer func() {
+		for _, sv := range servers {
+			sv.conn.Close()
+		}
+	}()
+	for round := 0; round < rounds(40); round++ {
+		var wg sync.WaitGroup
+		errs := make(chan string, n)
+		for i := range servers {
+			if rng.IntN(5) == 0 {
+				continue
+			}
+			wg.Add(1)
+			go func(sv server) {
+				defer wg.Done()
+				res, err := knx.DescribeTunnel(sv.conn.LocalAddr().String(), 300*time.Millisecond)
+				switch {
+				case err != nil:
+					errs <- fmt.Sprintf("DescribeTunnel(%s) failed: %v", sv.name, err)
+				case res == nil:
+					errs <- fmt.Sprintf("DescribeTunnel(%s) returned nothing although its server answers at once", sv.name)
+				case res.DeviceHardware.FriendlyName != sv.name:
+					errs <- fmt.Sprintf("DescribeTunnel(%s) returned the description of %q", sv.name, res.DeviceHardware.FriendlyName)
+				}
+			}(servers[i])
+		}
+		wg.Wait()
+		close(errs)
+		for e := range errs {
+			t.Errorf("INDEPENDENCE %s", e)
+		}
+	}
+}
